@@ -31,6 +31,8 @@ def gen_sequence(rng, n):
     seq = []
     issued = 0
     live = []
+    loaded = set()
+    mindb = os.path.join(vlib.DB, "minimum.dat")
 
     def pick_id():
         k = rng.random()
@@ -52,12 +54,26 @@ def gen_sequence(rng, n):
             seq.append(("Destroy (%d)" % i, ["destroy", i], lambda r: "OInt (%d)" % r["r"]))
             if i in live:
                 live.remove(i)
+                loaded.discard(i)
             continue
         i = pick_id()
         b = rng.choice("CCFM")
         if b == "M" and i not in live:
             b = "C"
         kind = rng.random()
+        if i in live and kind < 0.10:
+            # a successful database load (resets per-user-number switches and the current number) / a run defining SELECTED_OUTPUT numbers
+            if i not in loaded or rng.random() < 0.3:
+                loaded.add(i)
+                call = "%s (%d) Load%s" % ({"C": "CCall", "M": "MCall", "F": "FCall"}[b], i, " %d" % CAP if b == "F" else "")
+                op = {"C": ["c", "LoadDatabase", i, mindb], "M": ["m", "LoadDatabase", i, mindb], "F": ["f", "LoadDatabaseF", i, mindb]}[b]
+            else:
+                ns = sorted(rng.sample([1, 2, 3, 5, 40], rng.randint(1, 3)))
+                text = "".join("SELECTED_OUTPUT %d\n -reset false\n -pH true\n" % n for n in ns) + "SOLUTION 1\nEND\n"
+                call = "%s (%d) (RunDefines [%s])%s" % ({"C": "CCall", "M": "MCall", "F": "FCall"}[b], i, "; ".join(str(n) for n in ns), " %d" % CAP if b == "F" else "")
+                op = {"C": ["c", "RunString", i, text], "M": ["m", "RunString", i, text], "F": ["f", "RunStringF", i, text]}[b]
+            seq.append((call, op, lambda r: "OInt (%d)" % r["r"]))
+            continue
         if kind < 0.3:
             s, fn = rng.choice(SW)
             if rng.random() < 0.5:
